@@ -216,19 +216,27 @@ package keeper
 
 //@ func (Keeper).updateOrder
 //@   modifies ghost KVhas, ghost KVval, ghost G
+//@   uses mktWFSetOrder, mktWFSetBid, mktWFSetLease
+//@   ensures [wf] mktWF(old(KVhas)[k.skey], old(KVval)[k.skey]) ==> mktWF(KVhas[k.skey], KVval[k.skey])
 //@   ensures KVhas == old(KVhas)[k.skey := old(KVhas)[k.skey][orderKeyOf(order.OrderID) := true]]
 //@   ensures KVval == old(KVval)[k.skey := old(KVval)[k.skey][orderKeyOf(order.OrderID) := encode(order)]]
 //@ func (Keeper).updateBid
 //@   modifies ghost KVhas, ghost KVval, ghost G
+//@   uses mktWFSetOrder, mktWFSetBid, mktWFSetLease
+//@   ensures [wf] mktWF(old(KVhas)[k.skey], old(KVval)[k.skey]) ==> mktWF(KVhas[k.skey], KVval[k.skey])
 //@   ensures KVhas == old(KVhas)[k.skey := old(KVhas)[k.skey][bidKeyOf(bid.BidID) := true]]
 //@   ensures KVval == old(KVval)[k.skey := old(KVval)[k.skey][bidKeyOf(bid.BidID) := encode(bid)]]
 //@ func (Keeper).updateLease
 //@   modifies ghost KVhas, ghost KVval, ghost G
+//@   uses mktWFSetOrder, mktWFSetBid, mktWFSetLease
+//@   ensures [wf] mktWF(old(KVhas)[k.skey], old(KVval)[k.skey]) ==> mktWF(KVhas[k.skey], KVval[k.skey])
 //@   ensures KVhas == old(KVhas)[k.skey := old(KVhas)[k.skey][leaseKeyOf(lease.LeaseID) := true]]
 //@   ensures KVval == old(KVval)[k.skey := old(KVval)[k.skey][leaseKeyOf(lease.LeaseID) := encode(lease)]]
 
 //@ func (Keeper).CreateBid
 //@   modifies ghost KVhas, ghost KVval, ghost G, ghost EvN, ghost EvLog
+//@   uses mktWFSetOrder, mktWFSetBid, mktWFSetLease
+//@   ensures [wf] mktWF(old(KVhas)[k.skey], old(KVval)[k.skey]) ==> mktWF(KVhas[k.skey], KVval[k.skey])
 //@   ensures [exists] old(KVhas)[k.skey][bidKeyOf(result0.BidID)] || result1 != nil ==> result1 != nil && KVhas == old(KVhas) && KVval == old(KVval) && EvN == old(EvN)
 //@   ensures [created] result1 == nil ==> result0.BidID.Owner == oid.Owner && result0.BidID.DSeq == oid.DSeq && result0.BidID.GSeq == oid.GSeq && result0.BidID.OSeq == oid.OSeq
 //@                && result0.BidID.Provider == bech32(provider) && result0.State == types.BidOpen && result0.Price == price
@@ -239,6 +247,8 @@ package keeper
 // the lease takes the bid's identity and price
 //@ func (Keeper).CreateLease
 //@   modifies ghost KVhas, ghost KVval, ghost G, ghost EvN, ghost EvLog
+//@   uses mktWFSetOrder, mktWFSetBid, mktWFSetLease
+//@   ensures [wf] mktWF(old(KVhas)[k.skey], old(KVval)[k.skey]) ==> mktWF(KVhas[k.skey], KVval[k.skey])
 //@   ensures [lease] KVhas == old(KVhas)[k.skey := old(KVhas)[k.skey][leaseKeyOf(asLease(bid.BidID)) := true]]
 //@   ensures [price] leaseOf(KVval[k.skey], asLease(bid.BidID)).Price == bid.Price && leaseOf(KVval[k.skey], asLease(bid.BidID)).State == types.LeaseActive
 //@                && leaseOf(KVval[k.skey], asLease(bid.BidID)).LeaseID == asLease(bid.BidID)
@@ -246,20 +256,28 @@ package keeper
 //@   ensures [event] EvN == old(EvN) + 1 && EvLog == old(EvLog)[old(EvN) := sigLease(1, asLease(bid.BidID), bid.Price)]
 //@ func (Keeper).OnOrderMatched
 //@   modifies ghost KVhas, ghost KVval, ghost G
+//@   uses mktWFSetOrder, mktWFSetBid, mktWFSetLease
+//@   ensures [wf] mktWF(old(KVhas)[k.skey], old(KVval)[k.skey]) ==> mktWF(KVhas[k.skey], KVval[k.skey])
 //@   ensures KVhas == old(KVhas)[k.skey := old(KVhas)[k.skey][orderKeyOf(order.OrderID) := true]]
 //@   ensures KVval == old(KVval)[k.skey := old(KVval)[k.skey][orderKeyOf(order.OrderID) := encode(upd(order, State, types.OrderActive))]]
 //@ func (Keeper).OnBidMatched
 //@   modifies ghost KVhas, ghost KVval, ghost G
+//@   uses mktWFSetOrder, mktWFSetBid, mktWFSetLease
+//@   ensures [wf] mktWF(old(KVhas)[k.skey], old(KVval)[k.skey]) ==> mktWF(KVhas[k.skey], KVval[k.skey])
 //@   ensures KVhas == old(KVhas)[k.skey := old(KVhas)[k.skey][bidKeyOf(bid.BidID) := true]]
 //@   ensures KVval == old(KVval)[k.skey := old(KVval)[k.skey][bidKeyOf(bid.BidID) := encode(upd(bid, State, types.BidActive))]]
 //@ func (Keeper).OnBidLost
 //@   modifies ghost KVhas, ghost KVval, ghost G
+//@   uses mktWFSetOrder, mktWFSetBid, mktWFSetLease
+//@   ensures [wf] mktWF(old(KVhas)[k.skey], old(KVval)[k.skey]) ==> mktWF(KVhas[k.skey], KVval[k.skey])
 //@   ensures KVhas == old(KVhas)[k.skey := old(KVhas)[k.skey][bidKeyOf(bid.BidID) := true]]
 //@   ensures KVval == old(KVval)[k.skey := old(KVval)[k.skey][bidKeyOf(bid.BidID) := encode(upd(bid, State, types.BidLost))]]
 // closing is idempotent: a closed (or lost) record is left alone and no event is emitted
 //@ func (Keeper).OnBidClosed
 //@   requires k.skey != mktEscrowSKey()
 //@   modifies ghost KVhas, ghost KVval, ghost G, ghost Bank, ghost Mod, ghost It_all, ghost EvN, ghost EvLog
+//@   uses mktWFSetOrder, mktWFSetBid, mktWFSetLease
+//@   ensures [wf] mktWF(old(KVhas)[k.skey], old(KVval)[k.skey]) ==> mktWF(KVhas[k.skey], KVval[k.skey])
 //@   ensures [noop] bid.State == types.BidClosed || bid.State == types.BidLost ==> KVhas == old(KVhas) && KVval == old(KVval) && EvN == old(EvN) && EvLog == old(EvLog)
 //@   ensures [closed] !(bid.State == types.BidClosed || bid.State == types.BidLost) ==>
 //@                KVhas[k.skey] == old(KVhas)[k.skey][bidKeyOf(bid.BidID) := true]
@@ -268,6 +286,8 @@ package keeper
 //@   ensures [others] forall sk: iface {KVval[sk]} :: sk != mktEscrowSKey() && sk != k.skey ==> KVhas[sk] == old(KVhas)[sk] && KVval[sk] == old(KVval)[sk]
 //@ func (Keeper).OnOrderClosed
 //@   modifies ghost KVhas, ghost KVval, ghost G, ghost EvN, ghost EvLog
+//@   uses mktWFSetOrder, mktWFSetBid, mktWFSetLease
+//@   ensures [wf] mktWF(old(KVhas)[k.skey], old(KVval)[k.skey]) ==> mktWF(KVhas[k.skey], KVval[k.skey])
 //@   ensures [noop] order.State == types.OrderClosed ==> KVhas == old(KVhas) && KVval == old(KVval) && EvN == old(EvN) && EvLog == old(EvLog)
 //@   ensures [closed] order.State != types.OrderClosed ==>
 //@                KVhas == old(KVhas)[k.skey := old(KVhas)[k.skey][orderKeyOf(order.OrderID) := true]]
@@ -275,6 +295,8 @@ package keeper
 //@                && EvN == old(EvN) + 1 && EvLog == old(EvLog)[old(EvN) := sigOrder(2, order.OrderID)]
 //@ func (Keeper).OnLeaseClosed
 //@   modifies ghost KVhas, ghost KVval, ghost G, ghost EvN, ghost EvLog
+//@   uses mktWFSetOrder, mktWFSetBid, mktWFSetLease
+//@   ensures [wf] mktWF(old(KVhas)[k.skey], old(KVval)[k.skey]) ==> mktWF(KVhas[k.skey], KVval[k.skey])
 //@   ensures [noop] lease.State == types.LeaseClosed || lease.State == types.LeaseInsufficientFunds ==> KVhas == old(KVhas) && KVval == old(KVval) && EvN == old(EvN) && EvLog == old(EvLog)
 //@   ensures [closed] !(lease.State == types.LeaseClosed || lease.State == types.LeaseInsufficientFunds) ==>
 //@                KVhas == old(KVhas)[k.skey := old(KVhas)[k.skey][leaseKeyOf(lease.LeaseID) := true]]
@@ -305,6 +327,8 @@ package keeper
 //@   ensures order.State != types.OrderClosed ==> result && err != nil && oseq == old(oseq)
 //@ func (Keeper).CreateOrder
 //@   modifies ghost KVhas, ghost KVval, ghost G, ghost EvN, ghost EvLog, ghost It_all
+//@   uses mktWFSetOrder, mktWFSetBid, mktWFSetLease
+//@   ensures [wf] mktWF(old(KVhas)[k.skey], old(KVval)[k.skey]) ==> mktWF(KVhas[k.skey], KVval[k.skey])
 //@   call 1 invariant KVhas == atloop(KVhas) && KVval == atloop(KVval) && EvN == atloop(EvN) && EvLog == atloop(EvLog)
 //@   call 1 invariant !cbstop ==> err == nil && oseq == 1 + cbidx
 //@   call 1 invariant forall j: int :: 0 <= j && j < cbidx && !(cbstop && j == cbidx - 1) ==>
@@ -370,6 +394,14 @@ package keeper
 //@   trusted
 //@   ensures params == mktParams(ctx)
 
+//@ func (Keeper).WithLeases
+//@   iterates fn over k.skey, "\x03\x00" as types.Lease
+//@   modifies ghost It_all
+//@   loop 1 invariant ItHas[iter] == old(KVhas)[k.skey] && ItVal[iter] == old(KVval)[k.skey] && ItPrefix[iter] == "\x03\x00"
+//@   loop 1 invariant ItPos[iter] == CbN - old(CbN) && 0 <= ItPos[iter] && ItPos[iter] <= enumLen(old(KVhas)[k.skey], "\x03\x00")
+//@   loop 1 invariant forall j: int :: 0 <= j && j < CbN - old(CbN) ==> CbArg_types_Lease[old(CbN)+j] == decode(types.Lease, old(KVval)[k.skey][enumKey(old(KVhas)[k.skey], "\x03\x00", j)])
+//@   loop 1 invariant forall j: int :: 0 <= j && j < CbN - old(CbN) ==> !CbRes[old(CbN)+j]
+
 // the number of bids on an order (C08: bid cap)
 //@ func (Keeper).BidCountForOrder
 //@   modifies ghost It_all
@@ -378,9 +410,11 @@ package keeper
 
 //@ property C04 := (Keeper).GetOrder#*, (Keeper).GetBid#*, (Keeper).GetLease#*, (Keeper).updateOrder#*, (Keeper).updateBid#*, (Keeper).updateLease#*,
 //@                 (Keeper).CreateBid#*, (Keeper).CreateLease#*, (Keeper).OnOrderMatched#*, (Keeper).OnBidMatched#*, (Keeper).OnBidLost#*, (Keeper).OnBidClosed#*,
-//@                 (Keeper).OnOrderClosed#*, (Keeper).OnLeaseClosed#*, (Keeper).WithOrdersForGroup#*, (Keeper).WithBidsForOrder#*, (Keeper).BidCountForOrder#*,
+//@                 (Keeper).OnOrderClosed#*, (Keeper).OnLeaseClosed#*, (Keeper).WithOrdersForGroup#*, (Keeper).WithBidsForOrder#*, (Keeper).WithLeases#*, (Keeper).BidCountForOrder#*,
 //@                 (Keeper).CreateOrder#*, (Keeper).CreateOrder$1#*, (Keeper).OnGroupClosed#*, (Keeper).OnGroupClosed$1#*, (Keeper).OnGroupClosed$1$1#*,
 //@                 lemma:keepsClosedRefl, lemma:keepsClosedTrans, lemma:keepsClosedHas, lemma:keepsClosedWF, lemma:keepsClosedOrder, lemma:keepsClosedBid, lemma:keepsClosedLease, lemma:keepsClosedCloseOrder, lemma:keepsClosedCloseBid, lemma:keepsClosedCloseLease, lemma:ordKeyPrefix, lemma:bidKeyPrefix, lemma:leaseKeyPrefix, lemma:mktWFSetOrder, lemma:mktWFSetBid, lemma:mktWFSetLease, lemma:mktWFGetOrder, lemma:mktWFGetBid, lemma:mktWFGetLease, lemma:orderBidDisjoint, lemma:orderLeaseDisjoint, lemma:bidLeaseDisjoint
+
+//@ property C08 := (Keeper).WithLeases#*, (Keeper).GetOrder#*
 
 //@ property C06 := orderKey#*, bidKey#*, leaseKey#*, ordersForGroupPrefix#*, bidsForOrderPrefix#*,
 //@     lemma:orderKeyInj, lemma:bidKeyInj, lemma:leaseKeyInj, lemma:ordersForGroupExact, lemma:bidsForOrderExact, lemma:kindsDisjoint
